@@ -322,11 +322,24 @@ Fixpoint dedupZ (l : list Z) : list Z :=
   match l with [] => [] | x :: r => if memZ x r then dedupZ r else x :: dedupZ r end.
 Definition two_provider_keys (items : list item) : list Z :=
   filter (fun e => Nat.eqb (length (providers items e)) 2) (dedupZ (entities items)).
-Definition renames_shapeb (items : list item) : bool :=
-  Nat.eqb (max_providers items) 2 &&
-  match two_provider_keys items with
-  | [e] => existsb (fun p => memZ e (ireq p)) (providers items e)
-  | _ => false
-  end.
+(* regions of the input space, decided from the item set alone (used to name where a failure lies) *)
+Definition norequire_keyb (items : list item) (e : Z) : bool :=
+  negb (existsb (fun p => memZ e (ireq p)) (providers items e)).
+(* some doubly provided entity is required by neither of its providers *)
+Definition region_norequire (items : list item) : bool :=
+  existsb (norequire_keyb items) (two_provider_keys items).
+(* some item provides two doubly provided entities *)
+Definition region_shared (items : list item) : bool :=
+  existsb (fun p => Nat.leb 2 (length (filter (fun e => memZ e (iprov p)) (two_provider_keys items)))) items.
+
+Inductive region := RUnchained | RThree | RNoRequire | RShared | RSeveral | RRenames.
+
+Definition region_of (items : list item) : region :=
+  if Nat.leb (max_providers items) 1 then RUnchained
+  else if Nat.leb 3 (max_providers items) then RThree
+  else if region_norequire items then RNoRequire
+  else if region_shared items then RShared
+  else if Nat.leb 2 (length (two_provider_keys items)) then RSeveral
+  else RRenames.
 (* cyclic requirements: some item transitively requires one of its own outputs *)
 Definition cyclicb (items : list item) : bool := existsb (fun c => feedsb items c c) items.
